@@ -599,8 +599,8 @@ func init() {
 // c09integerStatsComparedAsIntegers — C09.R12.
 func c09integerStatsComparedAsIntegers(c *an.Ctx) {
 	const I = "engine/immutable"
-	r := c.Rule("C09.R12", "K-CONVLINT", I+": minMeta / maxMeta compare int64 statistics as int64, never through float64")
-	for _, spec := range []string{I + ":minMeta", I + ":maxMeta"} {
+	r := c.Rule("C09.R12", "K-CONVLINT", I+": minMeta / maxMeta and the merge of integer segment statistics compare int64 values as int64, never through float64")
+	for _, spec := range []string{I + ":minMeta", I + ":maxMeta", I + ":IntegerPreAgg.merge"} {
 		f := fn(r, spec)
 		if f == nil {
 			continue
